@@ -11,6 +11,12 @@ CHECKS = {
  'C02': ('search', 'bounded-exhaustive input x query enumeration on the real code, std::lower_bound oracle',
          'Same state space as C01 but every query of the alphabet (present, absent, +-1, gap midpoints, lowest(), max-1, far values) is checked: lower_bound restricted to [lo,hi) must equal the global lower_bound.',
          'As C01.', '4/C02'),
+ 'C03': ('segmentation', 'bounded-exhaustive input enumeration driving make_segmentation / make_segmentation_par directly; hook H1 point log; exact 128-bit rational evaluation of the reported line',
+         'Every sorted array up to N over the palettes, epsilon 0..3, integer and floating keys, plus the seam-window family through the chunked builder (2..20 chunks) and the block grammar for epsilon up to 64/1024: every point the builder was fed (hook H1) is checked against the line reported for the segment that absorbed it (exact rational arithmetic, tolerance epsilon+1/2 for integer keys; long double, epsilon+1 for floating keys), segments in increasing key order, each point in exactly one segment by position and by key interval, every distinct key fed at its first-occurrence rank, return value equals the number of segments.',
+         'Hook H1 reports the points handed to add_point; chunk count controlled by answering omp_get_num_procs/omp_get_max_threads in the harness (chunks run sequentially).', '4/C03'),
+ 'C04': ('segmentation', 'bounded-exhaustive input enumeration; builder partition compared with the greedy partition of an independent exact stabbing-line oracle',
+         'Same runs as C03 (integer keys): for every builder call, including every chunk and every upper-level call made while constructing PGMIndex objects, the partition into segments must equal the greedy maximal partition computed by an exact rational feasibility oracle (pairwise slope bounds, cross-checked between a naive and a hull-pruned implementation); hence minimal count for sequential builds, at most c-1 extra for c chunks, segment starts more than 2*epsilon ranks apart, segments_count() <= floor(n/(2eps+1))+c+1.',
+         'As C03; greedy with an exact oracle is optimal because feasibility is closed under taking subsets.', '4/C04'),
  'C07': ('search', 'bounded-exhaustive input x query enumeration with routing hook H3; brute-force rightmost-segment oracle per level',
          'For every explored index with EpsilonRecursive>0 and every query, the per-level routing record (predicted position, scan start, chosen segment) is compared with a brute-force scan of the level: chosen is the rightmost segment <= key, within EpsilonRecursive+1 of the prediction, at most 2R+3 segments inspected; level sizes obey floor(m/(2R+1))+c(+1 closing segment).',
          'Hook H3 (PGM_INDEX_VERIF_ROUTE) in segment_for_key; level-size bound allows +1 for the closing segment appended by build().', '4/C07'),
@@ -64,6 +70,8 @@ def main():
         'engines': [
             {'name': 'search', 'path': 'engines/search_main.cpp', 'serves_properties': ['C01', 'C02', 'C07', 'C08', 'C09', 'C10'],
              'kind_free_text': 'bounded-exhaustive enumeration of sorted inputs x queries on the real static indexes, forked workers with crash capture'},
+            {'name': 'segmentation', 'path': 'engines/segmentation.cpp', 'serves_properties': ['C03', 'C04'],
+             'kind_free_text': 'bounded-exhaustive enumeration of inputs to the piecewise-linear builder with hook H1 and exact rational oracles'},
         ],
         'checks': checks,
         'not_applicable': na,
